@@ -69,6 +69,25 @@ def stale_copy(leaf, body=None):
     return bool(clones) and min(clones) < last_write
 
 
+def other_effects(lib, leaf):
+    """effects of a setter beyond writing settings: calls of crate functions that take a `&mut` parameter and receive (part of) the receiver"""
+    out = []
+    for e in leaf.events:
+        if e["k"] != "call" or e["callee"].endswith("Clone>::clone"):
+            continue
+        cb = lib.body(e["callee"])
+        if cb is None or not any(t.startswith("&mut") for t in cb.sig_inputs):
+            continue
+        rooted = []
+        for a in e.get("args") or []:
+            pth = common.fld_path(a) if isinstance(a, ccp.V) else None
+            if pth and pth[0] in ("self", "self_"):
+                rooted.append(pth[-1])
+        if rooted:
+            out.append("%s(%s)" % (e["callee"], ", ".join(rooted)))
+    return sorted(out)
+
+
 def check_binding(ctx, lib, rid_prefix, methods, name_of, self_names, expected_return, thresholds_signed):
     """methods: dict binding-method-name -> Body; name_of(core_setter) -> binding method name."""
     api = common.spec("api")
@@ -111,6 +130,11 @@ def check_binding(ctx, lib, rid_prefix, methods, name_of, self_names, expected_r
             w = sorted((x[0][-1] if x[0] else "?", value_class(x[1], params)) for x in leaf_writes(rets[0]))
             if w != core_w:
                 ctx.violation(rid, (b.path, "writes"), "binding writes %s, the library's %s writes %s" % (w, setter, core_w), b.loc())
+                continue
+            ce_eff, b_eff = other_effects(lib, core_ret), other_effects(lib, rets[0])
+            if ce_eff != b_eff:
+                ctx.violation(rid, (b.path, "effects"), "the library's %s does more than store the setting: it also calls %s; the binding %s: a builder configured through the binding "
+                              "behaves differently from one configured through the library" % (setter, ce_eff or "nothing", ("calls " + str(b_eff)) if b_eff else "only writes the field"), b.loc())
                 continue
             if stale_copy(rets[0], b):
                 ctx.violation(rid, (b.path, "stale copy"), "the returned copy is taken before the setting is stored: the caller receives a builder without it", b.loc())
